@@ -10,6 +10,7 @@
 //   - rulePorts shape (default protocol, port-less entries skipped, non-tcp goes to the udp list);
 //   - peerTable precedence and the calls it makes; the nomatch option of ipBlockToTable;
 //   - the order of the sync steps in Run and in the policy event handlers.
+//
 // Exits non-zero when a function no longer has the shape it knows how to translate.
 package main
 
@@ -176,7 +177,8 @@ func stringSliceLit(e ast.Expr) ([]ast.Expr, bool) {
 }
 
 // argsBlock translates a block of the shape
-//   args := []string{...}; args = append(args, ...)*; writeLine(filterRules, args...)
+//
+//	args := []string{...}; args = append(args, ...)*; writeLine(filterRules, args...)
 func (g *gen) argsBlock(b *ast.BlockStmt) ([]string, error) {
 	var toks []string
 	seenWrite := false
@@ -851,10 +853,40 @@ func (g *gen) orders() error {
 	iCreate := strings.Index(body, "p.createIPSet(newIPSetMap)")
 	iDefer := strings.Index(body, "defer func() {")
 	iIpt := strings.Index(body, "return p.syncIptables(polices)")
+	// createIPSet: does the stale-entry clean-up spare an old entry whose KEY is among the new entries?
+	fd, err = g.p.Fn("PolicyManager", "createIPSet")
+	if err != nil {
+		return err
+	}
+	cbody := strings.Join(strings.Fields(g.p.Src(fd.Body)), " ")
+	if !strings.Contains(cbody, "if oldEntriesSet.Has(newEntryStr) { continue }") ||
+		!strings.Contains(cbody, "p.ipsetHandle.AddEntryWithOptions(&entry, &set.IPSet, true)") ||
+		!strings.Contains(cbody, "if !newEntries.Has(old) {") ||
+		!strings.Contains(cbody, "p.ipsetHandle.DelEntryWithOptions(name, parts[0], parts[1:]...)") {
+		return fmt.Errorf("createIPSet: the diff-based entry update no longer has the shape the model mirrors")
+	}
+	keeps := strings.Contains(cbody, "newEntryKeys.Insert(entry.String())") &&
+		regexpKeepGuard(cbody)
+	g.emit("-- createIPSet: entries are compared as strings incl. options, added with -exist, stale ones deleted by key;")
+	g.emit("-- the clean-up skips an old entry whose key (parts[0]) is among the keys of the new entries")
+	g.emit("def createIPSetKeepsRekeyedEntries : Bool := %s", fg.LeanBool(keeps))
 	g.emit("-- syncRules: create/refresh sets, then iptables, stale GLX sets destroyed afterwards (defer)")
 	g.emit("def syncRulesOrder : Bool := %s", fg.LeanBool(iCreate >= 0 && iDefer > iCreate && iIpt > iDefer &&
 		strings.Contains(body, "if !strings.HasPrefix(name, NamePrefix) { continue }")))
 	return nil
+}
+
+// regexpKeepGuard: inside `if !newEntries.Has(old) { … }` and before the delete there is
+// `if newEntryKeys.Has(parts[0]) { … continue }`.
+func regexpKeepGuard(body string) bool {
+	i := strings.Index(body, "if !newEntries.Has(old) {")
+	j := strings.Index(body, "p.ipsetHandle.DelEntryWithOptions(name, parts[0], parts[1:]...)")
+	if i < 0 || j < i {
+		return false
+	}
+	seg := body[i:j]
+	k := strings.Index(seg, "if newEntryKeys.Has(parts[0]) {")
+	return k >= 0 && strings.Contains(seg[k:], "continue }")
 }
 
 func generate(repo string) (map[string]string, error) {
